@@ -4,11 +4,21 @@
 //! and core parts of the `metrics` ecosystem, they can be beneficial for in-process collecting of
 //! metrics in some limited cases.
 
+#[cfg(not(metrics_verif))]
 use std::{
     collections::HashMap,
     fmt::Debug,
     hash::Hash,
     sync::{atomic::Ordering, Arc, Mutex},
+};
+#[cfg(metrics_verif)]
+use metrics::verif::sync::Mutex;
+#[cfg(metrics_verif)]
+use std::{
+    collections::HashMap,
+    fmt::Debug,
+    hash::Hash,
+    sync::{atomic::Ordering, Arc},
 };
 
 use crate::{
